@@ -740,6 +740,40 @@ func c09NextUpdate(p *Prog, pa *Path, comp *types.Named, v ssa.Value, step int) 
 	} else {
 		return "nextUpdateTime is not advanced from the end time that closed the window"
 	}
+	// the period is derived from the window that was closed (its candidate RTT), not from the completion that happened to
+	// close it: a raw integer parameter of the closing call has no business in the duration
+	{
+		seen := map[ssa.Value]bool{}
+		var raw *ssa.Parameter
+		var walk func(v ssa.Value, depth int)
+		walk = func(v ssa.Value, depth int) {
+			if v == nil || seen[v] || depth > 10 || raw != nil {
+				return
+			}
+			seen[v] = true
+			v = pa.Resolve(v, step)
+			if prm, ok := v.(*ssa.Parameter); ok {
+				if isIntegral(prm.Type()) && len(prm.Parent().Params) > 0 && prm != prm.Parent().Params[0] {
+					raw = prm
+				}
+				return
+			}
+			if _, _, isF := loadedField(v); isF {
+				return
+			}
+			if ins, ok := v.(ssa.Instruction); ok {
+				for _, op := range ins.Operands(nil) {
+					if op != nil && *op != nil {
+						walk(*op, depth+1)
+					}
+				}
+			}
+		}
+		walk(d, 0)
+		if raw != nil {
+			return "the next window period is computed from the parameter " + raw.Name() + " of the completion that closed the window, not from the closed window's own RTT"
+		}
+	}
 	pr := &prover{p: p, pa: pa, step: step}
 	minF, maxF := c09WindowBounds(comp)
 	if !minF.Valid() || !maxF.Valid() {
